@@ -491,7 +491,77 @@ func raceMain() {
 			}
 		}
 	}
+	// scale (free-running only; far beyond what the explorer can enumerate): a
+	// backlog of thousands of items that drains completely while a call of f is
+	// still to re-add an item that has run, and worker counts in the hundreds
+	for _, n := range []int{1, 3, 64} {
+		for _, leaves := range []int{1000, 1025, 3000} {
+			if what := scaleBurst(n, leaves); what != "" {
+				fmt.Printf("RACEPASS-ORACLE scale: %s\n", what)
+				os.Exit(3)
+			}
+		}
+	}
+	for _, n := range []int{100, 255, 256, 257, 300, 1000} {
+		if what := scaleChain(n, 50); what != "" {
+			fmt.Printf("RACEPASS-ORACLE scale: %s\n", what)
+			os.Exit(3)
+		}
+	}
 	fmt.Println("racepass done")
+}
+
+// scaleBurst: the root adds `leaves` items; every leaf adds the root again (a
+// duplicate) and its own successor. Every item exactly once.
+func scaleBurst(n, leaves int) string {
+	var mu sync.Mutex
+	count := map[int]int{}
+	w := new(par.Work)
+	w.Add(0)
+	w.Do(n, func(item any) {
+		i := item.(int)
+		mu.Lock()
+		count[i]++
+		mu.Unlock()
+		if i == 0 {
+			for k := 1; k <= leaves; k++ {
+				w.Add(k)
+			}
+			return
+		}
+		w.Add(0)
+		if i < leaves {
+			w.Add(i + 1)
+		}
+	})
+	for k := 0; k <= leaves; k++ {
+		if count[k] != 1 {
+			return fmt.Sprintf("Do(%d) with a root adding %d items that each re-add the root: f ran %d times for item %d (want once)", n, leaves, count[k], k)
+		}
+	}
+	return ""
+}
+
+// scaleChain: a chain of `length` items under n workers must be run completely
+// (a Do that never returns is caught by the deadline on this pass).
+func scaleChain(n, length int) string {
+	var mu sync.Mutex
+	count := 0
+	w := new(par.Work)
+	w.Add(1)
+	w.Do(n, func(item any) {
+		i := item.(int)
+		mu.Lock()
+		count++
+		mu.Unlock()
+		if i < length {
+			w.Add(i + 1)
+		}
+	})
+	if count != length {
+		return fmt.Sprintf("Do(%d) over a chain of %d items ran f %d times", n, length, count)
+	}
+	return ""
 }
 
 func raceCheck() []kit.V {
